@@ -293,5 +293,5 @@ def groups(tier):
     g['spec-bookkeeping-xy'] = (g_bookkeeping(['Tx', 'Px', 'Ty', 'Py'], [2], ((0, 0),), ('both',)),
                                 dict(max_paths=3000000, task_budget_s=300))
     if not q:
-        g['PH-exactness'] = (g_PH_exact(), dict(max_paths=3000000, task_budget_s=300, qtimeout_ms=30000))
+        g['PH-exactness'] = (g_PH_exact(), dict(max_paths=3000000, task_budget_s=120, qtimeout_ms=10000))
     return g
